@@ -9,6 +9,7 @@ import AfkakProofs.Producer.Progress
 import AfkakProofs.Producer.ReportedTrace
 import AfkakProofs.Producer.AfterStop
 import AfkakProofs.Producer.WireCompose
+import AfkakProofs.Producer.WireBytes
 import AfkakProofs.Producer.Compose2
 import AfkakProofs.Producer.Compose3
 import AfkakProofs.Producer.Compose4
@@ -205,6 +206,95 @@ theorem C01_payload_is_message_set_gzip (ext : Afkak.Wire.Ext) (body : Nat → L
        | .error e => .error e
        | .ok m => .ok [m]) :=
   WireCompose.createMessageSet_gzip ext body magic rs p hp
+
+/-- … DOWN TO THE BYTES A BROKER READS (composition with the wire package's theorems about `_encode_message_set`,
+    `AfkakProofs/Wire/{ProduceReq,TotalProduce}.lean`, and the Kafka grammar `Afkak/Wire/Spec.lean`, which is written
+    from the protocol guide, not from afkak).  For the sends `rs` of a payload `p` (`hp`: what `C01_payload_integrity`
+    delivers), message format `magic ∈ {0, 1}`, no compression, ANY externals (`ext.crc` any checksum function,
+    `ext.nowMs` the clock) and any `body` (value size ↦ value bytes): if the grammar can carry the messages at all
+    (`hvalid`, a decidable check: every key, value and encoded message shorter than 2^31 bytes, the clock within
+    int64), then `create_message_set` returns a message set `ms`, `_encode_message_set(ms, magic=magic)` WRITES bytes,
+    and those bytes PARSE under the grammar's message-set decoder to exactly one entry per message of the payload, in
+    order (`WireBytes.brokerEntry`: offset 0, the format asked for, attributes 0, the clock's timestamp for format 1,
+    the message's key and its value bytes - null ≠ empty - under a checksum that verifies): the `(key, value)` pairs
+    the broker reads are exactly the caller's, `p.msgs.map (kv body)`, same order, nothing added, nothing lost. -/
+theorem C01_payload_bytes_decode (ext : Afkak.Wire.Ext) (body : Nat → List UInt8) (magic : Int)
+    (hm : magic = 0 ∨ magic = 1) (rs : List Req) (p : Payload) (hp : p.msgs = rs.flatMap (·.wire))
+    (hvalid : (Afkak.Wire.Spec.messageSet ext.crc).valid (p.msgs.map (WireBytes.brokerEntry ext.nowMs body magic)) = true) :
+    ∃ ms bytes entries,
+      Afkak.Wire.createMessageSet ext (rs.map (WireCompose.sendArg body)) Afkak.Consts.codecNone magic = .ok ms
+      ∧ Afkak.Wire.encodeMessageSet ext ms none magic = .ok bytes
+      ∧ (Afkak.Wire.Spec.messageSet ext.crc).dec bytes = some entries
+      ∧ entries = p.msgs.map (WireBytes.brokerEntry ext.nowMs body magic)
+      ∧ entries.map (fun e => (e.2.key, e.2.value)) = p.msgs.map (WireBytes.kv body) :=
+  WireBytes.payload_bytes_decode ext body magic hm rs p hp hvalid
+
+/-- … and with gzip (composition with the wire package's `createMessageSet_gzip`, the lemma behind
+    `C04_compressed_payload`).  WHENEVER `create_message_set(reqs, CODEC_GZIP, magic)` returns (`h`) for the sends of
+    a payload `p`: if the decompressor undoes the compressor (`hinv`; both are externals of the model) and the grammar
+    can carry the payload's messages (`hvalid`, as above), the wrapper's value `gz` DECOMPRESSES to bytes that PARSE
+    under the grammar's message-set decoder to exactly one entry per message of the payload, in order, with the
+    message's key and value; and, if the grammar can carry the wrapper (`(…).valid [wrapperEntry …]`: `gz` shorter
+    than 2^31 bytes), `_encode_message_set` writes the returned set as bytes that parse under the grammar to that ONE
+    wrapper entry (offset 0, format `magic`, the gzip codec in the attributes, null key, value `gz`, checksum
+    verified).  So a broker that reads the payload's bytes and decompresses the wrapper's value recovers exactly the
+    caller's messages, keys and order. -/
+theorem C01_payload_bytes_decode_gzip (ext : Afkak.Wire.Ext) (body : Nat → List UInt8) (magic : Int)
+    (hm : magic = 0 ∨ magic = 1) (rs : List Req) (p : Payload) (hp : p.msgs = rs.flatMap (·.wire))
+    (ms : List Afkak.Wire.Message)
+    (h : Afkak.Wire.createMessageSet ext (rs.map (WireCompose.sendArg body)) Afkak.Consts.codecGzip magic = .ok ms)
+    (hinv : ∀ b z, ext.gzip b = .ok z → ext.gunzip (some z) = .ok b)
+    (hvalid : (Afkak.Wire.Spec.messageSet ext.crc).valid (p.msgs.map (WireBytes.brokerEntry ext.nowMs body magic)) = true) :
+    ∃ gz inner entries,
+      ext.gunzip (some gz) = .ok inner
+      ∧ (Afkak.Wire.Spec.messageSet ext.crc).dec inner = some entries
+      ∧ entries = p.msgs.map (WireBytes.brokerEntry ext.nowMs body magic)
+      ∧ entries.map (fun e => (e.2.key, e.2.value)) = p.msgs.map (WireBytes.kv body)
+      ∧ ((Afkak.Wire.Spec.messageSet ext.crc).valid [WireBytes.wrapperEntry ext.nowMs magic gz] = true →
+          ∃ bytes, Afkak.Wire.encodeMessageSet ext ms none magic = .ok bytes
+            ∧ (Afkak.Wire.Spec.messageSet ext.crc).dec bytes = some [WireBytes.wrapperEntry ext.nowMs magic gz]) :=
+  WireBytes.payload_bytes_decode_gzip ext body magic hm rs p hp ms h hinv hvalid
+
+/-- … and the WHOLE PRODUCE REQUEST (composition with the lemmas behind `C04_produce_conforms` and
+    `C04_produce_total`: `produce_bytes`, `produce_total`).  For the payload list of an `Ob.produce` (`payloads`),
+    topic names `tn`, no compression, any message format (`WireCompose.wireMsg`: format 1 when `magic = 1`, else 0), a
+    request version the encoder implements (`hv`: `ver ≥ 0`; `v` is `ver` clamped to 2), one payload per (topic name,
+    partition) (`hnd`: what the Producer builds - `C01_payload_integrity` - when distinct topics have distinct
+    names), ASCII topic names (`hascii`) and a request the grammar can carry (`hvalid`, a decidable check: the
+    grammar's field widths): `encode_produce_request` WRITES a frame, and the frame PARSES under the grammar's request
+    decoder to the header (api key 0, version `v`, the correlation and client id), `acks`, `timeout` and the payloads
+    nested by topic (`regroup`: topics by first occurrence, a topic's partitions in the order given), each partition
+    with exactly one entry per message of its payload, in order, key and value kept, checksum verified.  The nesting
+    loses and invents nothing: `q` is under topic `t` in what the broker reads IFF `(t, q)` is the
+    `(topic name, (partition, entries))` of one of the payloads.  (Whether format 1 may travel in a version < 2
+    request is the wire package's `C04_format_matches_version`; the grammar's parser reads each message's own format.) -/
+theorem C01_request_bytes_decode (ext : Afkak.Wire.Ext) (body : Nat → List UInt8) (magic : Int)
+    (tn : Topic → List UInt8) (payloads : List Payload) (cid : List UInt8) (corr acks timeout ver v : Int)
+    (hv : Afkak.Monitor.C04.implementedVersion ver = some v)
+    (hnd : (payloads.map (fun p => (tn p.tp.topic, p.tp.part))).Nodup)
+    (hascii : ∀ p ∈ payloads, Afkak.Wire.isAscii (tn p.tp.topic) = true)
+    (hvalid : (Afkak.Wire.Spec.request (Afkak.Wire.Spec.produceRequest ext.crc)).valid
+      (Afkak.Monitor.C04.hdr 0 v corr cid, acks, timeout,
+        Afkak.Monitor.C04.regroup (payloads.map (WireBytes.brokerPart ext.nowMs body magic tn))) = true) :
+    ∃ frame nested,
+      Afkak.Wire.encodeProduceRequest ext cid corr (payloads.map (WireBytes.wireReq ext body magic tn)) acks timeout ver
+        = .ok frame
+      ∧ (Afkak.Wire.Spec.request (Afkak.Wire.Spec.produceRequest ext.crc)).dec frame
+          = some (Afkak.Monitor.C04.hdr 0 v corr cid, acks, timeout, nested)
+      ∧ nested = Afkak.Monitor.C04.regroup (payloads.map (WireBytes.brokerPart ext.nowMs body magic tn))
+      ∧ (∀ t q, (∃ e ∈ nested, e.1 = t ∧ q ∈ e.2) ↔
+          ∃ p ∈ payloads, t = tn p.tp.topic ∧ q = (p.tp.part, p.msgs.map (WireBytes.brokerEntry ext.nowMs body magic))) :=
+  WireBytes.request_bytes_decode ext body magic tn payloads cid corr acks timeout ver v hv hnd hascii hvalid
+
+/-! Non-vacuity of the three theorems above: a concrete payload (two sends, a null message, an empty value, a null
+key), concrete externals and a two-payload request meet every hypothesis (`AfkakProofs/Producer/WireBytes.lean`,
+"non-vacuity", checked by `decide`); here the theorems are applied to them. -/
+example := C01_payload_bytes_decode WireBytes.exExt WireBytes.exBody 1 (Or.inr rfl) WireBytes.exRs WireBytes.exP
+  (by decide) (by decide +kernel)
+example := C01_payload_bytes_decode_gzip WireBytes.exExt WireBytes.exBody 1 (Or.inr rfl) WireBytes.exRs WireBytes.exP
+  (by decide) _ rfl (by intro b z h; cases h; rfl) (by decide +kernel)
+example := C01_request_bytes_decode WireBytes.exExt WireBytes.exBody 1 WireBytes.exTn [WireBytes.exP, WireBytes.exP2]
+  [99] 5 (-1) 1000 8 2 (by decide) (by decide) (by decide) (by decide +kernel)
 
 /-! Non-vacuity: a run in which Deferreds do fire (an acknowledged send, a cancelled one). -/
 def exCfg : Cfg := Cfg.ofArgs 1 3 (1/4) false 1 1 none false
@@ -426,6 +516,9 @@ C01_acks0_succeeds
 C01_payload_integrity
 C01_payload_is_message_set
 C01_payload_is_message_set_gzip
+C01_payload_bytes_decode
+C01_payload_bytes_decode_gzip
+C01_request_bytes_decode
 C01_batch_resolves_within
 C01_composed_is_producer_run
 C01_composed_success_only_if_leader_acked
